@@ -57,6 +57,21 @@ fn c10_cases() -> Vec<(Box<dyn Subject>, generic::StreamCase)> {
         add("aig-stream", lit, &format!("aig-and-gates-{lit}"), b"aig 600000000 0 0 0 ########\n", &[2u8, 0u8], 8);
         add("aig-stream", lit, &format!("aig-symbols-{lit}"), b"aig 1 1 0 0 0\n", b"i0 name ########\n", 20);
     }
+    // the same long sections LEFT EARLY: every section skipped (asking for the next one at once), and
+    // every section left after one entry - passing over the rest of a section must not buffer it
+    for (how, subject) in [("skipped", "skip"), ("left-after-one-entry", "mixed20")] {
+        add(&format!("aag-{subject}"), "u32", &format!("aag-outputs-{how}"), b"aag 0 0 0 ######## 0\n", b"0\n", 8);
+        add(&format!("aag-{subject}"), "u32", &format!("aag-inputs-{how}"), b"aag 600000000 ######## 0 0 0\n", b"########0\n", 12);
+        add(&format!("aag-{subject}"), "u32", &format!("aag-latches-{how}"), b"aag 600000000 0 ######## 0 0\n", b"########0 1 0\n", 16);
+        add(&format!("aag-{subject}"), "u32", &format!("aag-and-gates-{how}"), b"aag 600000000 0 0 0 ########\n", b"########0 1 0\n", 16);
+        add(&format!("aag-{subject}"), "u32", &format!("aag-justice-sizes-{how}"), b"aag 0 0 0 0 0 0 0 ########\n", b"0\n", 8);
+        add(&format!("aag-{subject}"), "u32", &format!("aag-fairness-{how}"), b"aag 0 0 0 0 0 0 0 0 ########\n", b"0\n", 8);
+        add(&format!("aag-{subject}"), "u32", &format!("aag-symbols-{how}"), b"aag 1 1 0 0 0\n2\n", b"i0 name ########\n", 20);
+        add(&format!("aig-{subject}"), "u32", &format!("aig-outputs-{how}"), b"aig 0 0 0 ######## 0\n", b"0\n", 8);
+        add(&format!("aig-{subject}"), "u32", &format!("aig-latches-{how}"), b"aig 600000000 0 ######## 0 0\n", b"0 1\n", 8);
+        add(&format!("aig-{subject}"), "u32", &format!("aig-and-gates-{how}"), b"aig 600000000 0 0 0 ########\n", &[2u8, 0u8], 8);
+        add(&format!("aig-{subject}"), "u32", &format!("aig-symbols-{how}"), b"aig 1 1 0 0 0\n", b"i0 name ########\n", 20);
+    }
     v
 }
 
